@@ -233,6 +233,16 @@ def run(ctx):
     st = run_iso(ctx, binp, items, "e2e-C14 generated")
     stats['generated'] = st
     ctx.log("e2e-C14 generated: %s" % st)
+    # documents whose extent is defined by a filter region 2-3 group levels below the injected isolation, or by
+    # the caps / joins of a thick stroke on a diagonal open path (seeded changes C14-1, C14-2): nothing crosses
+    # a canvas edge, so the strict rule applies
+    xitems = []
+    for k in range(400 if quick else 4000):
+        xitems.append((rc.gen_extent_doc(rng), rng.choice(['root', 'all', 'nest2']), rng.below(1 << 30) + 1,
+                       "fit:%s:%s:%s" % (rng.choice([0.5, 1, 1, 2, 3]), rng.choice(FRACS), rng.choice(FRACS))))
+    st = run_iso(ctx, binp, xitems, "e2e-C14 extents")
+    stats['extents'] = st
+    ctx.log("e2e-C14 extents: %s" % st)
     ctx.add_sample(dict(op='c14-iso', doc=items[0][0], mode=items[0][1], cfg=items[0][3]))
     ctx.add_sample(dict(op='c14-iso', doc='@' + files[len(files) // 3], mode='all', cfg='fit:1:0.37:0.61'))
     ctx.cov['e2e'] = stats
